@@ -142,6 +142,20 @@ func (fx *FnExec) obligN(st *State, kind, what string, p token.Pos, goal *Term, 
 	if fx.nobl == nil {
 		fx.nobl = map[string]int{}
 	}
+	// a conjunction is proved conjunct by conjunct (earlier conjuncts as hypotheses):
+	// smaller goals, and a failure names the conjunct
+	if goal.Op == "and" && len(goal.Args) > 1 && len(goal.Args) <= 16 && (kind == "call-pre" || kind == "inv-entry" || kind == "inv-pres" || kind == "ensures") {
+		var prev []*Term
+		for i, c := range goal.Args {
+			w := what
+			if w == "" {
+				w = "c"
+			}
+			fx.obligN(st, kind, fmt.Sprintf("%s&%d", w, i), p, Implies(And(prev...), c), nassume)
+			prev = append(prev, c)
+		}
+		return
+	}
 	base := fx.prefix + "/" + kind
 	if what != "" {
 		base += ":" + what
@@ -1326,6 +1340,12 @@ func (fx *FnExec) typeInv(v *Term, t types.Type, alloc *Term) *Term {
 		if fx.e.allImplementersArePointers(t, u) {
 			// typed nil pointers inside interface values are excluded (standing assumption A9)
 			c = And(c, Implies(Neq(IfcTag(v), IntLit(0)), Neq(IfcPtr(v), IntLit(0))))
+		}
+		if u.NumMethods() > 0 {
+			if n, ok := t.(*types.Named); ok && n.Obj().Pkg() != nil && inRepoPkg(n.Obj().Pkg()) {
+				// Go's type system: a non-nil value of interface type I has a dynamic type implementing I
+				c = And(c, Or(Eq(IfcTag(v), IntLit(0)), fx.implementsCond(v, u)))
+			}
 		}
 		return c
 	case *types.Struct:
